@@ -49,6 +49,8 @@ func runC15(c *core.Ctx) {
 	c.RuleDoc("R15.4", "every transaction of the in-memory store holds the store mutex")
 	c.RuleDoc("R15.5", "the records of one multi-record update are written on one transaction")
 	c.RuleDoc("R15.6", "plain map fields of mutex-owning structs are accessed only with the mutex held")
+	c.RuleDoc("R15.13", "records of the in-memory store are immutable once stored")
+	c.RuleDoc("R15.12", "no method of the slice-backed blob returns with its mutex held (= R19.13)")
 	c.RuleDoc("R15.11", "the amount a handle grows its content by is read in the critical section that grows (known finding)")
 	c.RuleDoc("R15.8", "no call that can take another lock while a blob's mutex is held (= R19.4)")
 	c.RuleDoc("R15.9", "a view shares the mutex of the blob it aliases (= R19.3)")
@@ -69,6 +71,7 @@ func runC15(c *core.Ctx) {
 		r15OneTransaction(c, p)
 		r15MapsUnderMutex(c, p, "mem", "keyvalue", "tar", "mount", "cache", "internal/pathlock")
 		r15StatelessFS(c, p)
+		r15RecordsImmutable(c, p)
 		if p.Target == load.Linux {
 			r15GrowFromStaleLength(c, p)
 		}
@@ -80,6 +83,7 @@ func runC15(c *core.Ctx) {
 					// copies a->b and b->a would each hold one mutex and wait for the other); R15.9 (= R19.3): a view
 					// shares its parent's mutex, so a read through a view serialises with a write to the blob
 					c.WithAlias(map[string]string{"R19.4": "R15.8", "R19.3": "R15.9"}, func() { r19SliceBacked(c, p, sh) })
+					r19NoLockLeak(c, p, sh, "R15.12")
 				}
 			}
 		}
@@ -98,6 +102,8 @@ func runC15(c *core.Ctx) {
 	c.Floor("R15.8", 4)
 	c.Floor("R15.9", 2)
 	c.Floor("R15.10", 1)
+	c.Floor("R15.12", 4)
+	c.Floor("R15.13", 1)
 }
 
 func r15Guard(c *core.Ctx, p *load.Program, g guardSpec) {
@@ -754,5 +760,57 @@ func r15GrowFromStaleLength(c *core.Ctx, p *load.Program) {
 	}
 	if n == 0 {
 		c.OK("R15.11", "no-relative-grow-from-len", "", "no handle method grows the content by an amount derived from a separate Len() call")
+	}
+}
+
+// r15RecordsImmutable (R15.13): a record of the in-memory store is never changed after it was put into the table:
+// every store into a field of the record type happens on a value allocated in the same function (a fresh record being
+// built). Records already returned by Get sit inside Stat results and open handles and are read lazily, outside the
+// store's mutex: updating one in place changes results other goroutines already hold (and races with their reads).
+func r15RecordsImmutable(c *core.Ctx, p *load.Program) {
+	recI := ifaceOf(p, "keyvalue", "FileRecord")
+	if recI == nil {
+		c.Hard("anchor: keyvalue.FileRecord")
+		return
+	}
+	var recT *types.Named
+	for _, n := range implementers(p, recI) {
+		if n.Obj().Pkg() != nil && strings.HasSuffix(n.Obj().Pkg().Path(), "/mem") {
+			recT = n
+		}
+	}
+	if recT == nil {
+		c.Hard("anchor: the in-memory FileRecord type")
+		return
+	}
+	bad := ""
+	sites := 0
+	for _, fn := range pkgFuncs(p, "mem") {
+		ssax.Instrs(fn, func(ins ssa.Instruction) {
+			st, ok := ins.(*ssa.Store)
+			if !ok {
+				return
+			}
+			fa, ok := st.Addr.(*ssa.FieldAddr)
+			if !ok {
+				return
+			}
+			if n := ssax.StructOfFieldAddr(fa); n == nil || !types.Identical(n, recT) {
+				return
+			}
+			sites++
+			if _, fresh := fa.X.(*ssa.Alloc); !fresh && bad == "" {
+				bad = p.Pos(st.Pos()) + " in " + fname(fn)
+			}
+		})
+	}
+	key := typeKey(recT) + "|fields-written-only-while-the-record-is-built"
+	switch {
+	case sites == 0:
+		c.Hard("anchor: construction of the in-memory record")
+	case bad != "":
+		c.Bad("R15.13", key, bad, fmt.Sprintf("a field of an in-memory record that was not allocated in the same function is written at %s: records handed out by Get live on in Stat results and open handles and are read outside the store's mutex — a result already returned to one goroutine changes under it when another goroutine saves the file (and the lazy read races with the write)", bad))
+	default:
+		c.OK("R15.13", key, p.Pos(recT.Obj().Pos()), "every field store targets a record allocated in the same function")
 	}
 }
